@@ -27,7 +27,9 @@
 //! Secondary clauses (own signatures): `encode(decode(text)) == text`; and per file the content
 //! level `DiffContent::parse(content.to_unified_string())` (heartwood's own hunk/line decoder) keeps
 //! hunk count, header numbers + text and every line's kind, bytes and numbers, and re-encodes to the
-//! same text.
+//! same text. When (and only when) the real decoder rejects the text, an own reader of the git file
+//! headers in the text still checks kinds, paths and hunk counts (`C30/undecodable-text/*`), so that
+//! a decode failure does not hide a wrong header.
 use std::collections::{BTreeMap, BTreeSet};
 
 use radicle::git::raw as git2;
@@ -747,6 +749,7 @@ fn stable(msg: &str) -> String {
     // error text without numbers / quoted material, usable inside a signature
     let mut s = String::new();
     let mut quoted = false;
+    let msg = msg.split(';').next().unwrap_or(msg);
     for ch in msg.chars() {
         match ch {
             '\'' | '`' | '"' => quoted = !quoted,
@@ -943,6 +946,17 @@ fn evaluate(rep: &mut Reporter, repo: &git2::Repository, c: &Case) {
             // which shape of input: a diff with a renamed file is its own class
             let class = if kinds.contains("moved") { "diff-with-moved-file/" } else { "" };
             out.add(&format!("C30/decode-error/{class}{}", stable(&e.to_string())), json!({"error": e.to_string(), "kinds_in_diff": kinds, "text": clip(&text)}));
+            match text_level_files(&text) {
+                Some(got) => {
+                    rep.count("text-level-fallback:understood");
+                    let want: Vec<(&str, String, String, usize)> = d.files().map(|f| (kind(f), paths(f).0, paths(f).1, hunks(content(f)).len())).collect();
+                    if want != got {
+                        let at = want.iter().zip(&got).position(|(a, b)| a != b).unwrap_or(want.len().min(got.len()));
+                        out.add("C30/undecodable-text/file-kind-path-or-hunk-count-differs", json!({"file": at, "want": want.get(at), "text_says": got.get(at)}));
+                    }
+                }
+                None => rep.count("text-level-fallback:not-understood"),
+            }
         }
         Err(p) => out.add(&format!("C30/decode-panic/{}", vcommon::panic_site(&p)), json!({"panic": p, "text": clip(&text)})),
     }
@@ -955,6 +969,76 @@ fn evaluate(rep: &mut Reporter, repo: &git2::Repository, c: &Case) {
     for (sig, detail) in out.0 {
         rep.violation(&sig, json!({"case": c.json(), "detail": detail, "unified_text": clip(&text)}));
     }
+}
+
+/// Fallback used only when the real decoder rejects the text (then the round trip has already
+/// failed): an own reader of the standard git file headers in the encoded text, so that a wrong
+/// kind / path / number of hunks is still seen. Hunk bodies are skipped by their header counts, so
+/// body lines that look like headers do not confuse it. `None` = text not understood, no verdict.
+fn text_level_files(text: &str) -> Option<Vec<(&'static str, String, String, usize)>> {
+    let lines: Vec<&str> = text.strip_suffix('\n').unwrap_or(text).split('\n').collect();
+    let mut out = vec![];
+    let mut i = 0;
+    while i < lines.len() {
+        let first = lines[i].strip_prefix("diff --git ")?;
+        i += 1;
+        let mut kind = "modified";
+        let (mut old, mut new) = (None::<String>, None::<String>);
+        while i < lines.len() && !lines[i].starts_with("diff --git ") && !lines[i].starts_with("@@ -") {
+            let l = lines[i];
+            if l.starts_with("new file mode ") {
+                kind = "added";
+            } else if l.starts_with("deleted file mode ") {
+                kind = "deleted";
+            } else if let Some(p) = l.strip_prefix("rename from ") {
+                kind = "moved";
+                old = Some(p.to_string());
+            } else if let Some(p) = l.strip_prefix("rename to ") {
+                new = Some(p.to_string());
+            } else if let Some(p) = l.strip_prefix("--- a/") {
+                old = Some(p.to_string());
+            } else if let Some(p) = l.strip_prefix("+++ b/") {
+                new = Some(p.to_string());
+            }
+            i += 1;
+        }
+        let mut nh = 0;
+        while i < lines.len() && lines[i].starts_with("@@ -") {
+            let (_, b, _, d, _) = parse_header(lines[i].as_bytes())?;
+            i += 1;
+            let (mut o, mut n) = (0u32, 0u32);
+            while o < b || n < d {
+                match lines.get(i)?.as_bytes().first()? {
+                    b' ' => {
+                        o += 1;
+                        n += 1;
+                    }
+                    b'-' => o += 1,
+                    b'+' => n += 1,
+                    _ => return None,
+                }
+                i += 1;
+            }
+            if o != b || n != d {
+                return None;
+            }
+            nh += 1;
+        }
+        if old.is_none() && new.is_none() {
+            // header without path lines (mode-only change): "a/<p> b/<p>" with equal halves
+            let half = first.len() / 2;
+            let (a, b) = (first.get(..half)?, first.get(half + 1..)?);
+            old = Some(a.strip_prefix("a/")?.to_string());
+            new = Some(b.strip_prefix("b/")?.to_string());
+        }
+        let (o, n) = match kind {
+            "added" => (String::new(), new?),
+            "deleted" => (old?, String::new()),
+            _ => (old?, new?),
+        };
+        out.push((kind, o, n, nh));
+    }
+    Some(out)
 }
 
 fn first_diff_line(a: &str, b: &str) -> (String, String) {
@@ -1005,7 +1089,7 @@ pub fn run(args: &Args) {
         rep.finish();
         return;
     }
-    let n = args.budget(160_000, 4_000_000);
+    let n = args.budget(160_000, 2_400_000);
     for k in 0..n {
         let c = gen_case(args.case_seed(k));
         evaluate(&mut rep, &repo, &c);
